@@ -1751,6 +1751,11 @@ class SQLModel:
                 )
         # TODO: put common sub-expression control object here and pass into converters
         temp_id_source = [0]
+        # generated view and alias names are <step kind>_<n>: number them above any table name that already ends in _<n>
+        for table_name in ops.get_tables().keys():
+            name_match = re.match(r"^.*_(\d+)$", str(table_name))
+            if name_match is not None:
+                temp_id_source[0] = max(temp_id_source[0], int(name_match.group(1)) + 1)
         near_sql = ops.to_near_sql_implementation_(
             db_model=self, using=None, temp_id_source=temp_id_source
         )
